@@ -32,7 +32,7 @@ FUNCTIONS = ["stackscope._code_dispatch.IdentityDict (all methods + MutableMappi
              "stackscope._customization.customize / customize_it", "stackscope._customization.elaborate_frame"]
 
 # ------------------------------------------------------------------ 1
-OPS = ["set", "get", "del", "pop", "popd", "setdefault", "contains", "len", "iter", "popitem", "clear", "getd", "items", "eqcopy", "update", "setdefault0"]
+OPS = ["set", "get", "del", "pop", "popd", "popnone", "setdefault", "contains", "len", "iter", "popitem", "clear", "getd", "items", "eqcopy", "update", "setdefault0"]
 
 
 def idict_run(ops: List[Tuple[str, int, Any]]) -> Optional[str]:
@@ -91,6 +91,14 @@ def idict_run(ops: List[Tuple[str, int, Any]]) -> Optional[str]:
                         return f"step {step}: pop raised KeyError but key present"
                     if not (ex.args and ex.args[0] is key):
                         return f"step {step}: pop KeyError does not carry the key"
+            elif op == "popnone":
+                got = d.pop(key, None)
+                if j >= 0:
+                    if got is not model[j][1]:
+                        return f"step {step}: pop(k{k}, None) returned the wrong value"
+                    del model[j]
+                elif got is not None:
+                    return f"step {step}: pop(k{k}, None) on a missing key returned {got!r}"
             elif op == "popd":
                 got = d.pop(key, sentinel)
                 if j < 0:
